@@ -62,6 +62,9 @@ func (c *C14) variants() map[string][]c14Variant {
 		{"height(+2^32)", "minter", sth(func(e *mhubtypes.SendToHubEvent) { e.ExternalHeight = 100 + 1<<32 })},
 		{"height(+2^63)", "minter", sth(func(e *mhubtypes.SendToHubEvent) { e.ExternalHeight = 100 + 1<<63 })},
 		{"txhash", "minter", sth(func(e *mhubtypes.SendToHubEvent) { e.TxHash = "0xbb" })},
+		// a hash of the usual length, and the same hash with something after it (no Validate bounds the length)
+		{"txhash(66 characters)", "minter", sth(func(e *mhubtypes.SendToHubEvent) { e.TxHash = "0x" + strings.Repeat("ab", 32) })},
+		{"txhash(66 characters, then 00)", "minter", sth(func(e *mhubtypes.SendToHubEvent) { e.TxHash = "0x" + strings.Repeat("ab", 32) + "00" })},
 		// the value nothing and the text "0" (= the byte 48): amount 0 / 48
 		{"amount(zero)", "minter", sth(func(e *mhubtypes.SendToHubEvent) { e.Amount = sdk.NewInt(0) })},
 		{"amount(48)", "minter", sth(func(e *mhubtypes.SendToHubEvent) { e.Amount = sdk.NewInt(48) })},
@@ -104,6 +107,9 @@ func (c *C14) variants() map[string][]c14Variant {
 		{"height(+2^32)", "minter", ttc(func(e *mhubtypes.TransferToChainEvent) { e.ExternalHeight = 100 + 1<<32 })},
 		{"height(+2^63)", "minter", ttc(func(e *mhubtypes.TransferToChainEvent) { e.ExternalHeight = 100 + 1<<63 })},
 		{"txhash", "minter", ttc(func(e *mhubtypes.TransferToChainEvent) { e.TxHash = "0xbb" })},
+		// a hash of the usual length, and the same hash with something after it (no Validate bounds the length)
+		{"txhash(66 characters)", "minter", ttc(func(e *mhubtypes.TransferToChainEvent) { e.TxHash = "0x" + strings.Repeat("ab", 32) })},
+		{"txhash(66 characters, then 00)", "minter", ttc(func(e *mhubtypes.TransferToChainEvent) { e.TxHash = "0x" + strings.Repeat("ab", 32) + "00" })},
 		// the mirror value of the fee (nothing in Validate refuses a negative fee)
 		{"fee(negative mirror)", "minter", ttc(func(e *mhubtypes.TransferToChainEvent) { e.Fee = e.Fee.Neg() })},
 		{"amount(+2^64)", "minter", ttc(func(e *mhubtypes.TransferToChainEvent) { e.Amount = e.Amount.Add(pow2(64)) })},
@@ -140,6 +146,9 @@ func (c *C14) variants() map[string][]c14Variant {
 		{"height(+2^32)", "ethereum", bee(func(e *mhubtypes.BatchExecutedEvent) { e.ExternalHeight = 100 + 1<<32 })},
 		{"height(+2^63)", "ethereum", bee(func(e *mhubtypes.BatchExecutedEvent) { e.ExternalHeight = 100 + 1<<63 })},
 		{"txhash", "ethereum", bee(func(e *mhubtypes.BatchExecutedEvent) { e.TxHash = "0xbb" })},
+		// a hash of the usual length, and the same hash with something after it (no Validate bounds the length)
+		{"txhash(66 characters)", "ethereum", bee(func(e *mhubtypes.BatchExecutedEvent) { e.TxHash = "0x" + strings.Repeat("ab", 32) })},
+		{"txhash(66 characters, then 00)", "ethereum", bee(func(e *mhubtypes.BatchExecutedEvent) { e.TxHash = "0x" + strings.Repeat("ab", 32) + "00" })},
 		{"feepaid", "ethereum", bee(func(e *mhubtypes.BatchExecutedEvent) { e.FeePaid = sdk.NewInt(5_000_000) })},
 		{"feepayer", "ethereum", bee(func(e *mhubtypes.BatchExecutedEvent) { e.FeePayer = r2 })},
 		{"feepaid(zero)", "ethereum", bee(func(e *mhubtypes.BatchExecutedEvent) { e.FeePaid = sdk.NewInt(0) })},
@@ -175,6 +184,9 @@ func (c *C14) variants() map[string][]c14Variant {
 		{"height(+2^32)", "ethereum", cce(func(e *mhubtypes.ContractCallExecutedEvent) { e.ExternalHeight = 100 + 1<<32 })},
 		{"height(+2^63)", "ethereum", cce(func(e *mhubtypes.ContractCallExecutedEvent) { e.ExternalHeight = 100 + 1<<63 })},
 		{"txhash", "ethereum", cce(func(e *mhubtypes.ContractCallExecutedEvent) { e.TxHash = "0xbb" })},
+		// a hash of the usual length, and the same hash with something after it (no Validate bounds the length)
+		{"txhash(66 characters)", "ethereum", cce(func(e *mhubtypes.ContractCallExecutedEvent) { e.TxHash = "0x" + strings.Repeat("ab", 32) })},
+		{"txhash(66 characters, then 00)", "ethereum", cce(func(e *mhubtypes.ContractCallExecutedEvent) { e.TxHash = "0x" + strings.Repeat("ab", 32) + "00" })},
 	}
 	// ---- SignerSetTxExecutedEvent
 	m1 := []*mhubtypes.ExternalSigner{{Power: 100, ExternalAddress: r1}, {Power: 50, ExternalAddress: r2}}
@@ -206,6 +218,9 @@ func (c *C14) variants() map[string][]c14Variant {
 		{"members(same thrice)", "ethereum", sse(func(e *mhubtypes.SignerSetTxExecutedEvent) { e.Members = m6 })},
 		{"members(reordered)", "ethereum", sse(func(e *mhubtypes.SignerSetTxExecutedEvent) { e.Members = m7 })},
 		{"txhash", "ethereum", sse(func(e *mhubtypes.SignerSetTxExecutedEvent) { e.TxHash = "0xbb" })},
+		// a hash of the usual length, and the same hash with something after it (no Validate bounds the length)
+		{"txhash(66 characters)", "ethereum", sse(func(e *mhubtypes.SignerSetTxExecutedEvent) { e.TxHash = "0x" + strings.Repeat("ab", 32) })},
+		{"txhash(66 characters, then 00)", "ethereum", sse(func(e *mhubtypes.SignerSetTxExecutedEvent) { e.TxHash = "0x" + strings.Repeat("ab", 32) + "00" })},
 		{"members(power+2^32)", "ethereum", sse(func(e *mhubtypes.SignerSetTxExecutedEvent) {
 			e.Members = []*mhubtypes.ExternalSigner{{Power: 100 + 1<<32, ExternalAddress: r1}, {Power: 50, ExternalAddress: r2}}
 		})},
